@@ -206,7 +206,7 @@ def split_top(sx):
 
 # ---------------- memory: objects with byte dict (concrete offsets only in prototype)
 class Mem:
-    def __init__(s): s.objs={}; s.n=0; s.checks=[]; s.symload={}; s.cand_checks=[]
+    def __init__(s): s.objs={}; s.n=0; s.checks=[]; s.symload={}; s.cand_checks=[]; s.watch={}
     def alloc(s,size,name=None,init=None):
         s.n+=1; k=name or 'o%d'%s.n; s.objs[k]={'size':size,'bytes':{} if init is None else init,'ch':{}}; return Ptr(k,0)
     def _explode(s,o,off):
@@ -225,6 +225,7 @@ class Mem:
         s.n+=1; s.objs[name]={'size':size,'bytes':{},'ch':{},'arr':z3.Array(name+'_mem',z3.BitVecSort(64),z3.BitVecSort(8))}; return Ptr(name,0)
     def store(s,p,val,nbytes):
         if p.obj not in s.objs: raise OOB('store through null/unknown pointer',p.obj,p.off,nbytes,0)
+        if s.watch and p.obj in s.watch: s.watch[p.obj](p,nbytes)
         o=s.objs[p.obj]
         if 'arr' in o:
             off=bv(p.off,64); s.checks.append((p.obj,off,nbytes,o['size'],'store'))
@@ -518,12 +519,14 @@ class Interp:
             return ('br',m.group(2))
         if op in ('call','tail','musttail','notail'):
             if op!='call': rest=rest.split(' ',1)[1] if rest.startswith('call') else rest
+            rest=re.sub(r'bitcast \((?:[^@()]|\([^()]*\))*(@"[^"]*"|@[\w.$-]+) to (?:[^()]|\([^()]*\))*\)\(',r'\1(',rest,count=1) if ' bitcast (' in rest.split('(',1)[0]+' bitcast (' and re.match(r'(?:call\s+)?[^@%]*\bbitcast \(',rest) else rest
             m=re.match(r'(?:call\s+)?(?:fastcc\s+)?((?:noalias |noundef |signext |zeroext |nonnull |align \d+ |dereferenceable\(\d+\) |dereferenceable_or_null\(\d+\) )*)(.*?)\s*([@%]"[^"]*"|[@%][\w.$-]+)\((.*)\)',rest)
             ma=re.match(r'(?:call\s+)?(.*?)\s+asm\s+(?:sideeffect\s+|alignstack\s+|inteldialect\s+)*"((?:[^"\\]|\\.)*)"',rest)
             if ma:
                 # inline assembly (cpuid/xgetbv in cpu.cpp): environment query -> arbitrary result values of the declared type
                 rt,_=s.tp.parse(ma.group(1)); rt=resolve(rt); s.asmn=getattr(s,'asmn',0)+1
-                if isinstance(rt,StructT): v=[z3.BitVec('asm%d_%d'%(s.asmn,k),resolve(e).w) for k,e in enumerate(rt.els)]
+                if getattr(s,'asm_zero',False): v=[0]*len(rt.els) if isinstance(rt,StructT) else 0
+                elif isinstance(rt,StructT): v=[z3.BitVec('asm%d_%d'%(s.asmn,k),resolve(e).w) for k,e in enumerate(rt.els)]
                 elif isinstance(rt,IntT): v=z3.BitVec('asm%d'%s.asmn,rt.w)
                 else: v=None
                 s.trace.append(('asm',ma.group(2)[:40]))
@@ -532,7 +535,14 @@ class Interp:
             if m is None: raise Exception('call? '+l[:200])
             fn=m.group(3)
             if fn.startswith('%'):
-                fp=env[fn]; assert isinstance(fp,Ptr) and fp.obj.startswith('@fn:'),fp; fn=fp.obj[4:]
+                fp=env[fn]
+                if isinstance(fp,Ptr) and fp.obj and not fp.obj.startswith('@fn:') and '<indirect>' in s.hooks:
+                    args=[s.typed(env,a)[1] for a in split_top(m.group(4))] if m.group(4).strip() else []
+                    v=s.hooks['<indirect>'](s,fp,args)
+                    if res: env[res]=v
+                    return
+                if not (isinstance(fp,Ptr) and fp.obj and fp.obj.startswith('@fn:')): raise OOB('indirect call through',getattr(fp,'obj',None),getattr(fp,'off',fp),0,0)
+                fn=fp.obj[4:]
             else: fn=fn[1:].strip('"')
             args=[s.typed(env,a)[1] for a in split_top(m.group(4))] if m.group(4).strip() else []
             rt,_=s.tp.parse(m.group(2)) if m.group(2).strip() else (VoidT(),0)
